@@ -686,7 +686,8 @@ class ExprMixin:
             lo_t = bound(lo, "0")
             hi_t = bound(hi, f"(seq.len {sq})")
             ctor = "v_list" if lb.kind == "list" else "v_tuple"
-            out.append((s, Val(f"({ctor} (seq.extract {sq} {lo_t} (- {hi_t} {lo_t})))", kind=lb.kind, fresh=TRUE)))
+            # a new list, but its members are the members of the sliced container: they stay rooted where that one is (frame)
+            out.append((s, Val(f"({ctor} (seq.extract {sq} {lo_t} (- {hi_t} {lo_t})))", kind=lb.kind, fresh=TRUE, origin=getattr(lb, "origin", None))))
         return out
 
     def getitem(self, st, base, idx, node):
